@@ -11,7 +11,6 @@ EXPECT = {
     # id: (expectation, reason)
     "seeded-C05-2": ("accepted-miss", "changes value arithmetic of the weight computation only"),
     "seeded-C05-4": ("accepted-miss", "suppresses the propagation of a pending tuple cycle inside calculateEdgeWeight: value logic of the cycle bookkeeping"),
-    "seeded-C05-11": ("accepted-miss", "seeds the intersection's candidate types from the first edge only (idx == 0 instead of an empty set): value logic of the enforce-type strategy"),
     "seeded-C17-10": ("accepted-miss", "the existence test for a tuple-to-userset target reads the metadata map instead of the relation map: which map is consulted is value logic (C05 reports the same patch through the order rule)"),
     "seeded-C14-5": ("accepted-miss", "changes which models count as modular (any → all): a predicate over the model, no structural clause"),
     "seeded-C14-18": ("accepted-miss", "the scan that decides whether a model is modular gives up at the first type without metadata: which models count as modular is a predicate over the model (as C14-5), no structural clause"),
